@@ -915,10 +915,12 @@ SolverOption::WCHeadTail SolverOption::wc_split(
 
 bool SolverOption::wc_match(const std::string &key) {
   for (const auto& wcht: wc_headtails_) {
-    if (0==key.rfind(wcht.first, 0) &&
-        key.size()>wcht.second.size() &&
-        key.size()-wcht.second.size() ==
-          key.rfind((wcht.second))) {
+    // Like other option names and synonyms, case-insensitive
+    if (key.size() >= wcht.first.size() + wcht.second.size() &&
+        0==strncasecmp(key.c_str(), wcht.first.c_str(),
+                       wcht.first.size()) &&
+        0==strcasecmp(key.c_str() + key.size()-wcht.second.size(),
+                      wcht.second.c_str())) {
       wc_key_last_ = key;
       wc_body_last_ = key.substr(
             wcht.first.size(), key.size()-wcht.second.size()-wcht.first.size());
